@@ -6,8 +6,8 @@ from ..gen import Gen, strict_eq
 
 ID = 'C19'
 LEAN_TARGETS = ['Properties.C19']
-THEOREMS = ['Dist.C19_numbers', 'Dist.C19_typed_range', 'Dist.C19_typed_zero', 'Dist.C19_time_zero_partial',
-            'Dist.C19_N_time_microseconds', 'Dist.C19_N_datetime_vs_date', 'Dist.C19_dispatch_order']
+THEOREMS = ['Dist.C19_numbers', 'Dist.C19_typed_range', 'Dist.C19_typed_zero',
+            'Dist.C19_time_zero', 'Dist.C19_time_microseconds', 'Dist.C19_N_datetime_vs_date', 'Dist.C19_dispatch_order']
 RULE = ('(a) pairs of ints / short decimals / Decimals (0, negatives, opposite signs, equal values) x maxima: real _get_numbers_distance vs the exact '
         'rational model; (b) datetimes, dates, timedeltas, times; (c) deep_distance of generated nested pairs x ignore_order x view x cutoff. '
         'distinct = distinct (a, b, max) or (t1, t2, config); non-trivial = operands differ')
@@ -117,8 +117,23 @@ def part_typed(ctx):
         'datetime': [DT(2020, 1, 1), DT(2020, 1, 1, 0, 0, 1), DT(1969, 12, 31, 23), DT(2020, 1, 2), DT(2020, 1, 1, 0, 0, 0, 5), DT(1950, 6, 1)],
         'date': [D(2020, 1, 1), D(2020, 1, 2), D(1969, 12, 31), D(1, 1, 1), D(2021, 1, 1)],
         'timedelta': [TD(0), TD(seconds=1), TD(days=1), TD(days=-1), TD(microseconds=5), TD(days=-2, seconds=3)],
-        'time': [T(0, 0, 0), T(1, 2, 3), T(1, 2, 4), T(23, 59, 59), T(12, 0, 0)],
+        'time': [T(0, 0, 0), T(1, 2, 3), T(1, 2, 4), T(23, 59, 59), T(12, 0, 0), T(1, 2, 3, 1), T(1, 2, 3, 2), T(0, 0, 0, 999999), T(23, 59, 59, 500000)],
     }
+    EPOCH = DT(1970, 1, 1)
+    US = TD(microseconds=1)
+
+    def tdist_line(kind, a, b, mx):
+        m = rat_tok(frac(mx))
+        if kind == 'time':
+            return 'TDIST time %d %d %d %d %d %d %d %d %s' % (a.hour, a.minute, a.second, a.microsecond, b.hour, b.minute, b.second, b.microsecond, m)
+        if kind == 'datetime':
+            return 'TDIST datetime %d %d %s' % ((a - EPOCH) // US, (b - EPOCH) // US, m)      # naive datetimes: timestamp() reads them in local time (UTC here, asserted below)
+        if kind == 'date':
+            return 'TDIST date %d %d %s' % (a.toordinal(), b.toordinal(), m)
+        return 'TDIST timedelta %d %d %s' % (a // US, b // US, m)
+    import time as _time
+    local_is_utc = (_time.timezone == 0 and not _time.daylight)
+    lines, metas = [], []
     findings = {f['id']: f for f in core.load_findings(ID) if f.get('status') == 'open'}
     for kind, vs in vals.items():
         for a, b in itertools.product(vs, repeat=2):
@@ -133,6 +148,19 @@ def part_typed(ctx):
                 ctx.count('typed:' + kind)
                 if a != b:
                     ctx.nontriv((kind, repr(a), repr(b), mx))
+                if kind != 'datetime' or (local_is_utc and a.year > 1971 and b.year > 1971):
+                    lines.append(tdist_line(kind, a, b, mx)); metas.append((case, d))
+    if ctx.build_ok and lines:
+        ans = core.run_model(lines)
+        for (case, d), m in zip(metas, ans):
+            ctx.traces += 1
+            try:
+                n_, d_ = m.split('/')
+                exact = Fraction(int(n_), int(d_))
+                if abs(Fraction(d) - exact) > Fraction(1, 10**9) * max(1, abs(exact)):
+                    ctx.diverge(case, repr(d), m, op='TDIST')
+            except ValueError:
+                ctx.diverge(case, repr(d), m, op='TDIST')
     # boundary witnesses
     wit = {
         'F24': lambda: get_numeric_types_distance(T(1, 2, 3, 1), T(1, 2, 3, 2), 1) != 0,
